@@ -1,3 +1,190 @@
 package main
 
-func registerConcolic(e *Engine) {}
+// L3: token-symbolic parse.  ast.Parse is the only function of the parse
+// pipeline that is not executed symbolically: a representative content is
+// obtained from the solver, parsed natively with the real llir/ll parser, the
+// tree is imported into the symbolic heap and its content is bound to the
+// symbolic string, so that every Text() read by the translator is symbolic.
+//
+// Stated assumption: within the lexical class the harness constrains the
+// symbolic bytes to, the shape of the parse tree (node types and offsets) does
+// not depend on the symbolic bytes.  It is checked on up to three further
+// models per call; a disagreement ends the path as a stated cut.
+
+import (
+	"fmt"
+	"go/types"
+	"os"
+
+	"github.com/llir/ll/ast"
+	"github.com/llir/ll/selector"
+	"golang.org/x/tools/go/ssa"
+)
+
+func treeShape(n *ast.Node, out *[]int) {
+	*out = append(*out, int(n.Type()), n.Offset(), n.Endoffset())
+	kids := n.Children(selector.Any)
+	*out = append(*out, len(kids))
+	for _, k := range kids {
+		treeShape(k, out)
+	}
+}
+
+func sameShape(a, b []int) bool {
+	if len(a) != len(b) {
+		return false
+	}
+	for i := range a {
+		if a[i] != b[i] {
+			return false
+		}
+	}
+	return true
+}
+
+func fieldIdx(s *types.Struct, name string) int {
+	for i := 0; i < s.NumFields(); i++ {
+		if s.Field(i).Name() == name {
+			return i
+		}
+	}
+	panic("no field " + name)
+}
+
+func registerConcolic(e *Engine) {
+	e.intercept["github.com/llir/ll/ast.Parse"] = func(e *Engine, st *State, fr *Frame, in ssa.CallInstruction, a []Val) Val {
+		content := a[1].(StrVal)
+		var syms []*Term
+		seen := map[*Term]bool{}
+		for _, b := range content.b {
+			if !b.IsConst() {
+				for v := range b.freeVars() {
+					if !seen[v] {
+						seen[v] = true
+						syms = append(syms, v)
+					}
+				}
+			}
+		}
+		concretise := func(vals map[*Term]uint64) string {
+			buf := make([]byte, len(content.b))
+			memo := map[*Term]uint64{}
+			for i, b := range content.b {
+				if b.IsConst() {
+					buf[i] = byte(b.c)
+				} else {
+					v, ok := evalTerm(b, vals, memo)
+					if !ok {
+						abort("unsupported", "concolic parse: content byte not evaluable")
+					}
+					buf[i] = byte(v)
+				}
+			}
+			return string(buf)
+		}
+		var rep string
+		var shapes [][]int
+		var reps []string
+		nModels := 1
+		if len(syms) > 0 {
+			nModels = 4
+		}
+		var block *Term
+		var firstTree *ast.Tree
+		var firstErr error
+		for k := 0; k < nModels; k++ {
+			vals := map[*Term]uint64{}
+			if len(syms) > 0 {
+				r := e.sol.Check(st.pc, block)
+				if r != "sat" {
+					e.sol.Done()
+					if k == 0 {
+						if r == "unsat" {
+							abort("infeasible", "")
+						}
+						abort("unsupported", "concolic parse: no model (%s)", r)
+					}
+					break
+				}
+				vals, _ = e.sol.Values(syms)
+				e.sol.Done()
+				if vals == nil {
+					abort("unsupported", "concolic parse: model extraction failed")
+				}
+			}
+			txt := concretise(vals)
+			tree, err := ast.Parse("t.ll", txt)
+			var sh []int
+			if err == nil {
+				treeShape(tree.Root(), &sh)
+			} else {
+				sh = []int{-1}
+			}
+			if k == 0 {
+				rep, firstTree, firstErr = txt, tree, err
+			}
+			shapes = append(shapes, sh)
+			reps = append(reps, txt)
+			// block this assignment of the symbolic bytes
+			diff := False
+			for _, v := range syms {
+				diff = Or(diff, Not(Eq(v, ConstBV(v.s.W, vals[v]))))
+			}
+			if block == nil {
+				block = diff
+			} else {
+				block = And(block, diff)
+			}
+		}
+		for k := 1; k < len(shapes); k++ {
+			if !sameShape(shapes[0], shapes[k]) {
+				if os.Getenv("VF_DEBUG") != "" {
+					fmt.Fprintf(os.Stderr, "concolic: shape differs between %q and %q\n", reps[0], reps[k])
+				}
+				abort("cut", "concolic parse: parse-tree shape depends on the symbolic bytes (lexical class too wide): %q vs %q", reps[0], reps[k])
+			}
+		}
+		e.rep.note("concolic-parse", fmt.Sprintf("representative parsed natively, %d model(s) agree on the tree shape", len(shapes)))
+		_ = rep
+		tup := in.Common().Signature().Results()
+		treePtrT := tup.At(0).Type().(*types.Pointer)
+		if firstErr != nil {
+			return TupleVal{[]Val{PtrVal{}, opaqueErrNamed(st, "parse error: "+firstErr.Error())}}
+		}
+		treeT := treePtrT.Elem()
+		ts := treeT.Underlying().(*types.Struct)
+		tz := e.zero(treeT).(StructVal)
+		tz.f[fieldIdx(ts, "path")] = a[0]
+		tz.f[fieldIdx(ts, "content")] = content
+		treeID := st.alloc(tz)
+		nodeT := ts.Field(fieldIdx(ts, "root")).Type().(*types.Pointer).Elem()
+		ns := nodeT.Underlying().(*types.Struct)
+		fT, fOff, fEnd, fPar, fNext, fFirst, fTree := fieldIdx(ns, "t"), fieldIdx(ns, "offset"), fieldIdx(ns, "endoffset"), fieldIdx(ns, "parent"), fieldIdx(ns, "next"), fieldIdx(ns, "firstChild"), fieldIdx(ns, "tree")
+		var imp func(n *ast.Node, parent PtrVal) PtrVal
+		imp = func(n *ast.Node, parent PtrVal) PtrVal {
+			z := e.zero(nodeT).(StructVal)
+			z.f[fT] = ConstBV(64, uint64(n.Type()))
+			z.f[fOff] = ConstBV(64, uint64(n.Offset()))
+			z.f[fEnd] = ConstBV(64, uint64(n.Endoffset()))
+			z.f[fPar] = parent
+			z.f[fTree] = PtrVal{obj: treeID}
+			id := st.alloc(z)
+			self := PtrVal{obj: id}
+			kids := n.Children(selector.Any)
+			var prev PtrVal
+			for i := len(kids) - 1; i >= 0; i-- {
+				k := imp(kids[i], self)
+				kz := st.hget(k.obj).(StructVal)
+				kz.f[fNext] = prev // freshly allocated, not shared yet
+				prev = k
+			}
+			zz := st.hget(id).(StructVal)
+			zz.f[fFirst] = prev
+			return self
+		}
+		root := imp(firstTree.Root(), PtrVal{})
+		tz2 := st.hget(treeID).(StructVal)
+		tz2.f[fieldIdx(ts, "root")] = root
+		return TupleVal{[]Val{PtrVal{obj: treeID}, IfaceVal{}}}
+	}
+}
